@@ -181,6 +181,24 @@ func analyze(w *World, q *Query) *Analysis {
 		tb.consts[k] = v
 	}
 	lt := newLitTable()
+	// comparisons of a sum with a constant are kept about the sum without its constant part:
+	// `len(id) − 32 < 3` and `len(id) < 35` are one literal
+	lt.norm = func(l Lit) Lit {
+		if (l.Kind != KLtC && l.Kind != KEqC) || l.A == nil || l.A.Op != "sum" {
+			return l
+		}
+		for i, x := range l.A.Args {
+			if n, ok := x.IntConst(); ok {
+				if l.A.Name[i] == '-' {
+					n = -n
+				}
+				l.A = tb.binop(token.SUB, l.A, tb.constInt(n), intType)
+				l.C -= n
+				break
+			}
+		}
+		return l
+	}
 	// pass 1: enumerate effect sites; pass 2: with ¬E units
 	first := runPass(w, q, tb, lt, nil, 1)
 	second := runPass(w, q, tb, lt, first.effects, 2)
